@@ -109,6 +109,7 @@ func checkC12(p *core.Program, r *core.Report) {
 	r.Rule("O12.1", "exactly one public variable per circuit")
 	r.Rule("O12.2", "depth guard precedes any constraint (deletion)")
 	r.Rule("O12.3", "CLI dimension flags reach depth/batch fields, vector/matrix shapes and the stored dimensions identically on every construction path; same Compile configuration")
+	r.Rule("O12.6", "outside the keys-file load chain, the constraint system of every proving system that is built is frontend.Compile's result in that call (no cache file, no memo)")
 	r.Rule("O12.5", "the files written by r1cs, setup and import-setup are created truncated (no stale tail, no append): the exported bytes are exactly the system that was built")
 	r.Rule("O12.4", "no nondeterminism source in definition/construction code")
 	r.Trusted = append(r.Trusted, "gnark's compiler is a deterministic function of the circuit definition's API-call sequence", "urfave/cli flag lookup")
@@ -250,6 +251,7 @@ func checkC12(p *core.Program, r *core.Report) {
 	checkNoNondeterminism(p, r, ctx)
 	// O12.5: what `r1cs` / `setup` / `import-setup` leave at the output path is the system just built and nothing else
 	checkOutputFilesTruncated(p, r, "O12.5", "the constraint system / keys", "r1cs", "setup", "import-setup")
+	checkConstraintSystemOrigin(p, r)
 }
 
 func enclosingFuncName(e tf.Event) string {
